@@ -27,7 +27,7 @@ pub fn run(ctx: &Ctx) -> Report {
 	total.rule = "component values = all sequences of <= n tokens over {a, (é), %41, %C3, %A9, %80, %BF, %C0, %C1, %E0, %ED, %A0, %F0, %F4, %90, %F5, %FF, %2F, %25, %E2, %82, %AC} (every class of the UTF-8 decoding automaton) for Segment, Host, UserInfo, Query, Fragment of both families, stand-alone and obtained from a parsed URI/IRI; per value: bytes(), chars(), len(), decode(), == str against a list of well-formed texts, Deref, into_pct_string; non-trivial = distinct (family, component, text, embedding)".into();
 	let n = ctx.pick(3usize, 4usize);
 	let oth = others();
-	for f in Family::BOTH {
+	for f in Family::active() {
 		let toks = tokens(f);
 		for k in KINDS {
 			let d = refs.dfa(f, k);
@@ -72,7 +72,7 @@ pub fn run(ctx: &Ctx) -> Report {
 		(Kind::UserInfo, "u:p"), (Kind::UserInfo, ":"), (Kind::UserInfo, "u;v=w"),
 		(Kind::Query, "a=b&c=d"), (Kind::Query, "?/"), (Kind::Fragment, "?/"), (Kind::Segment, "a:b@c"), (Kind::Segment, ";p=1"),
 	];
-	for f in Family::BOTH {
+	for f in Family::active() {
 		let mut r = Report::new();
 		let mut vs = Vec::new();
 		for (k, t) in &extra {
